@@ -3,6 +3,7 @@ Helper lemmas for C15 (CV.Chain): association lists, `removeUnusedNodes` (reach)
 -/
 import CV.Chain
 set_option linter.unusedVariables false
+set_option linter.unusedSimpArgs false
 namespace CV.Chain
 
 /-! ### association lists -/
